@@ -201,9 +201,26 @@ def gen(seed, family=None, knobs=None):
             extra = {3: {"ip_address": f"10.{si + 1}.3.{10 + len(hosts)}", "subnet_mask": "255.255.255.0"},
                      2: {"ip_address": f"10.{si + 1}.2.{10 + len(hosts)}", "subnet_mask": "255.255.255.0"}}
             kw["network_interfaces"] = extra
+        # further documented options that the shipped examples leave at their defaults (own random stream)
+        rnd_w = random.Random(f"{seed}-{name}-more-options")
+        if rnd_w.random() < 0.4:
+            kw["node_scan_duration"] = rnd_w.choice([0, 1, 2, 4])
+        if rnd_w.random() < 0.4 and not any(a["type"] == "web-browser" for a in apps):
+            wb = {"type": "web-browser", "options": {"target_url": rnd_w.choice(["http://arcd.com/users/", "http://arcd.com/", "http://arcd.com/missing/"])}}
+            if rnd_w.random() < 0.3:
+                wb["options"]["listen_on_ports"] = ["SMB"]
+            kw["applications"] = list(kw.get("applications", [])) + [wb]
+        for sv in kw.get("services", []):
+            if sv["type"] in ("database-service", "ftp-server") and rnd_w.random() < 0.25:
+                sv["options"] = dict(sv.get("options") or {}, listen_on_ports=[631])
+        for ap in kw.get("applications", []):
+            if ap["type"] == "dos-bot" and rnd_w.random() < 0.5:
+                ap["options"] = dict(ap.get("options") or {}, dos_intensity=rnd_w.choice([0.25, 1.0]), max_sessions=rnd_w.choice([3, 1000]))
+        if fixed is None and name != c2_beacon_host and rnd_w.random() < 0.12:
+            kw["operating_state"] = "OFF"  # a host that is powered off when the episode starts
         n.host(name, ip, gw=gw, kind=kind, **kw)
         n.to_switch(sw, name, bandwidth=bw())
-        meta_hosts[name] = {"kind": kind, "ip": ip, "services": [s["type"] for s in services], "apps": [a["type"] for a in apps],
+        meta_hosts[name] = {"kind": kind, "ip": ip, "services": [s["type"] for s in services], "apps": [a["type"] for a in apps if a["type"] != "web-browser"],
                             "folders": {f["folder_name"]: [x["file_name"] for x in f.get("files", [])] for f in folders},
                             "users": [u["username"] for u in kw.get("users", [])]}
         hosts.append(name)
